@@ -22,6 +22,7 @@ from ..faultfs import LISTING, VerifFS
 
 LEVEL = "fault_enumeration"
 R = 3
+_EXEC = [0]
 FIXED_UUID = uuid.UUID("12345678-1234-5678-1234-567812345678")
 
 
@@ -60,15 +61,24 @@ def make_frame(variant, old=False):
                         index=pd.Index(np.arange(len(pts)) + 100, name="idx"), geometry="pts")
 
 
+import re
+_UUID_RE = re.compile(r"[0-9a-f]{8}-[0-9a-f]{4}-[0-9a-f]{4}-[0-9a-f]{4}-[0-9a-f]{12}")
+
+
+def norm(p):
+    """the per-execution uuid in temp directory names is not part of the observation"""
+    return None if p is None else _UUID_RE.sub("UUID", p)
+
+
 def tree(root):
     out = []
     if not os.path.exists(root):
         return out
     for dp, dn, fn in os.walk(root):
         for d in dn:
-            out.append((os.path.relpath(os.path.join(dp, d), root), "d"))
+            out.append((norm(os.path.relpath(os.path.join(dp, d), root)), "d"))
         for f in fn:
-            out.append((os.path.relpath(os.path.join(dp, f), root), "f"))
+            out.append((norm(os.path.relpath(os.path.join(dp, f), root)), "f"))
     return sorted(out)
 
 
@@ -116,10 +126,12 @@ def run_pack(work, cfgname, faults, keep=False, healthy_repeat=False):
     # own the randomness: uuid4 becomes a deterministic counter (unique values are needed because
     # dask.delayed(pure=False) names its tasks with uuid4, and the synchronous scheduler orders ready tasks by name)
     counter = [0]
+    _EXEC[0] += 1
+    hi = (0x123 << 108) + (_EXEC[0] << 64)       # names never repeat between executions (dask-expr caches graphs by name)
 
     def det_uuid4():
         counter[0] += 1
-        return uuid.UUID(int=(0x12345678 << 96) + counter[0])
+        return uuid.UUID(int=hi + counter[0])
     old_uuid4 = uuid.uuid4
     uuid.uuid4 = det_uuid4
     try:
@@ -147,7 +159,7 @@ def run_pack(work, cfgname, faults, keep=False, healthy_repeat=False):
     finally:
         uuid.uuid4 = old_uuid4
     if not healthy_repeat:
-        allcalls = [(m, os.path.relpath(p, work) if p else None) for _, m, p in fs.calls]
+        allcalls = [(m, norm(os.path.relpath(p, work)) if p else None) for _, m, p in fs.calls]
         obs["calls"] = allcalls[:ncalls] if obs["outcome"] == "returned" else allcalls
         obs["injected"] = [list(i) for i in fs.injected]
     obs["state"] = dataset_state(path, tmpbase)
